@@ -5,6 +5,7 @@ package schedule
 // C18 — Weekly.Contains follows local wall-clock time.
 //
 //vx:overlay internal/schedule/zz_vx_c18.go
+//vx:native
 //vx:entry vxC18Contains reach=inside,outside first_ms=1500
 //vx:stub (*time.Location).lookup vxC18Lookup
 //vx:stub time.initLocal vxC18InitLocal
